@@ -363,10 +363,10 @@ func runC01(r *ev.Run) {
 	for _, sf := range stacks {
 		onlySkew := false
 		if sf.Heavy && !isThorough(r) {
-			if sf.Name != "quic(mem)" {
+			if sf.Name != "quic(mem)" && sf.Name != "ssh" {
 				continue
 			}
-			onlySkew = true // the quick pass runs quic only in its skewed-MTU configuration
+			onlySkew = sf.Name == "quic(mem)" // the quick pass runs quic only in its skewed-MTU configuration (and ssh once)
 		}
 		reps := pick(r, 1, 3)
 		// reassembling layers get extra runs over a transport with a very short receive queue: its buffers are recycled
